@@ -100,7 +100,6 @@ func (p *H264Payloader) Payload(mtu uint16, payload []byte) [][]byte { //nolint:
 		}
 
 		naluType := nalu[0] & naluTypeBitmask
-		naluRefIdc := nalu[0] & naluRefIdcBitmask
 
 		switch {
 		case naluType == audNALUType || naluType == fillerNALUType:
@@ -134,78 +133,93 @@ func (p *H264Payloader) Payload(mtu uint16, payload []byte) [][]byte { //nolint:
 				out := make([]byte, len(stapANalu))
 				copy(out, stapANalu)
 				payloads = append(payloads, out)
+			} else {
+				// the aggregate does not fit: send the parameter sets on their own
+				payloads = p.packetizeNalu(payloads, mtu, p.spsNalu)
+				payloads = p.packetizeNalu(payloads, mtu, p.ppsNalu)
 			}
 
 			p.spsNalu = nil
 			p.ppsNalu = nil
 		}
 
-		// Single NALU
-		if len(nalu) <= int(mtu) {
-			out := make([]byte, len(nalu))
-			copy(out, nalu)
-			payloads = append(payloads, out)
-
-			return
-		}
-
-		// FU-A
-		maxFragmentSize := int(mtu) - fuaHeaderSize
-
-		// The FU payload consists of fragments of the payload of the fragmented
-		// NAL unit so that if the fragmentation unit payloads of consecutive
-		// FUs are sequentially concatenated, the payload of the fragmented NAL
-		// unit can be reconstructed.  The NAL unit type octet of the fragmented
-		// NAL unit is not included as such in the fragmentation unit payload,
-		// 	but rather the information of the NAL unit type octet of the
-		// fragmented NAL unit is conveyed in the F and NRI fields of the FU
-		// indicator octet of the fragmentation unit and in the type field of
-		// the FU header.  An FU payload MAY have any number of octets and MAY
-		// be empty.
-
-		// According to the RFC, the first octet is skipped due to redundant information
-		naluIndex := 1
-		naluLength := len(nalu) - naluIndex
-		naluRemaining := naluLength
-
-		if minInt(maxFragmentSize, naluRemaining) <= 0 {
-			return
-		}
-
-		for naluRemaining > 0 {
-			currentFragmentSize := minInt(maxFragmentSize, naluRemaining)
-			out := make([]byte, fuaHeaderSize+currentFragmentSize)
-
-			// +---------------+
-			// |0|1|2|3|4|5|6|7|
-			// +-+-+-+-+-+-+-+-+
-			// |F|NRI|  Type   |
-			// +---------------+
-			out[0] = fuaNALUType
-			out[0] |= naluRefIdc
-
-			// +---------------+
-			// |0|1|2|3|4|5|6|7|
-			// +-+-+-+-+-+-+-+-+
-			// |S|E|R|  Type   |
-			// +---------------+
-
-			out[1] = naluType
-			if naluRemaining == naluLength {
-				// Set start bit
-				out[1] |= 1 << 7
-			} else if naluRemaining-currentFragmentSize == 0 {
-				// Set end bit
-				out[1] |= 1 << 6
-			}
-
-			copy(out[fuaHeaderSize:], nalu[naluIndex:naluIndex+currentFragmentSize])
-			payloads = append(payloads, out)
-
-			naluRemaining -= currentFragmentSize
-			naluIndex += currentFragmentSize
-		}
+		payloads = p.packetizeNalu(payloads, mtu, nalu)
 	})
+
+	return payloads
+}
+
+// packetizeNalu appends nalu to payloads as a single NAL unit packet when it fits
+// the MTU and as FU-A fragments otherwise.
+func (p *H264Payloader) packetizeNalu(payloads [][]byte, mtu uint16, nalu []byte) [][]byte {
+	naluType := nalu[0] & naluTypeBitmask
+	naluRefIdc := nalu[0] & naluRefIdcBitmask
+
+	// Single NALU
+	if len(nalu) <= int(mtu) {
+		out := make([]byte, len(nalu))
+		copy(out, nalu)
+		payloads = append(payloads, out)
+
+		return payloads
+	}
+
+	// FU-A
+	maxFragmentSize := int(mtu) - fuaHeaderSize
+
+	// The FU payload consists of fragments of the payload of the fragmented
+	// NAL unit so that if the fragmentation unit payloads of consecutive
+	// FUs are sequentially concatenated, the payload of the fragmented NAL
+	// unit can be reconstructed.  The NAL unit type octet of the fragmented
+	// NAL unit is not included as such in the fragmentation unit payload,
+	// 	but rather the information of the NAL unit type octet of the
+	// fragmented NAL unit is conveyed in the F and NRI fields of the FU
+	// indicator octet of the fragmentation unit and in the type field of
+	// the FU header.  An FU payload MAY have any number of octets and MAY
+	// be empty.
+
+	// According to the RFC, the first octet is skipped due to redundant information
+	naluIndex := 1
+	naluLength := len(nalu) - naluIndex
+	naluRemaining := naluLength
+
+	if minInt(maxFragmentSize, naluRemaining) <= 0 {
+		return payloads
+	}
+
+	for naluRemaining > 0 {
+		currentFragmentSize := minInt(maxFragmentSize, naluRemaining)
+		out := make([]byte, fuaHeaderSize+currentFragmentSize)
+
+		// +---------------+
+		// |0|1|2|3|4|5|6|7|
+		// +-+-+-+-+-+-+-+-+
+		// |F|NRI|  Type   |
+		// +---------------+
+		out[0] = fuaNALUType
+		out[0] |= naluRefIdc
+
+		// +---------------+
+		// |0|1|2|3|4|5|6|7|
+		// +-+-+-+-+-+-+-+-+
+		// |S|E|R|  Type   |
+		// +---------------+
+
+		out[1] = naluType
+		if naluRemaining == naluLength {
+			// Set start bit
+			out[1] |= 1 << 7
+		} else if naluRemaining-currentFragmentSize == 0 {
+			// Set end bit
+			out[1] |= 1 << 6
+		}
+
+		copy(out[fuaHeaderSize:], nalu[naluIndex:naluIndex+currentFragmentSize])
+		payloads = append(payloads, out)
+
+		naluRemaining -= currentFragmentSize
+		naluIndex += currentFragmentSize
+	}
 
 	return payloads
 }
